@@ -84,3 +84,11 @@ From BB Require Gen.Book Proofs.Book.
 Theorem C09_position_bookkeeping_from_source : Proofs.Book.bookkeeping_ok = true.
 Proof. exact Proofs.Book.bookkeeping_from_source. Qed.
 Print Assumptions C09_position_bookkeeping_from_source.
+
+(* ---- the model is a FUNCTION of the program and the options, and so is the code it models: the effect summary regenerated from asm.py
+   passes summary_ok (no module-level object written by anything reachable from assemble(), no mutable default, no set iteration order
+   consumed; Proofs/Effects.v noninterference) -- a memo table or cache that outlives a call makes a pure model unfaithful *)
+From BB Require Gen.Effects Proofs.Effects Proofs.EffectsOk.
+Theorem C09_assemble_is_a_function_of_its_inputs : Proofs.Effects.summary_ok Gen.Effects.summary = true.
+Proof. exact Proofs.EffectsOk.summary_ok_holds. Qed.
+Print Assumptions C09_assemble_is_a_function_of_its_inputs.
